@@ -206,3 +206,118 @@ Fixpoint same_shape (t u : tree) : bool :=
        end) es fs
   | _, _ => false
   end.
+
+(* ---------------------------------------------------------------- reference, latency "N" *)
+(* A merger whose next-element latency is unbounded keeps the waiting front element of every
+   input list in a register file ordered by (value, list index).  Entering an element costs
+   one comparison plus one for every waiting element that is greater (it has to move past
+   them); the greatest waiting element leaves, and the list it came from supplies its next
+   element.  The reference keeps the register file as an unordered bag: no positions, no
+   bisection, no sortedness -- the cost of an entry is counted, the leaving element is
+   selected as the maximum. *)
+Definition tup_ltb (p q : tup) : bool := negb (tup_leb q p).
+Definition tup_eqb (p q : tup) : bool := Z.eqb (fst p) (fst q) && Z.eqb (snd p) (snd q).
+
+Definition greater_count (e : tup) (reg : list tup) : Z :=
+  Z.of_nat (length (filter (fun h => tup_ltb e h) reg)).
+
+Fixpoint max_tup (m : tup) (l : list tup) : tup :=
+  match l with
+  | [] => m
+  | h :: l' => max_tup (if tup_leb m h then h else m) l'
+  end.
+
+Fixpoint remove_one (m : tup) (l : list tup) : list tup :=
+  match l with
+  | [] => []
+  | h :: l' => if tup_eqb h m then l' else h :: remove_one m l'
+  end.
+
+(* list i supplies its next element (lists are held greatest first) *)
+Definition enter (lists : list (list Z)) (i : nat) (reg : list tup) (cost : Z)
+  : option (list (list Z) * list tup * Z) :=
+  match nth i lists [] with
+  | [] => None
+  | x :: rest =>
+    let e := (x, Z.of_nat i) in
+    Some (firstn i lists ++ rest :: skipn (S i) lists, e :: reg, cost + (1 + greater_count e reg))
+  end.
+
+Fixpoint enter_all (n i : nat) (lists : list (list Z)) (reg : list tup) (cost : Z)
+  : option (list (list Z) * list tup * Z) :=
+  match n with
+  | O => Some (lists, reg, cost)
+  | S n' => match enter lists i reg cost with
+            | None => None
+            | Some (lists', reg', c') => enter_all n' (S i) lists' reg' c'
+            end
+  end.
+
+Fixpoint leave_all (fuel : nat) (lists : list (list Z)) (reg : list tup) (cost : Z)
+                   (out : list Z) : option (Z * list Z) :=
+  match fuel with
+  | O => None
+  | S fuel' =>
+    match reg with
+    | [] => Some (cost, out)
+    | h :: reg0 =>
+      let m := max_tup h reg0 in
+      let reg' := remove_one m reg in
+      let i := Z.to_nat (snd m) in
+      match nth i lists [] with
+      | [] => leave_all fuel' lists reg' cost (out ++ [fst m])
+      | _ => match enter lists i reg' cost with
+             | None => None
+             | Some (lists', reg'', c') => leave_all fuel' lists' reg'' c' (out ++ [fst m])
+             end
+      end
+    end
+  end.
+
+Definition merge_N_ref (group : list (list Z)) : option (Z * list Z) :=
+  match enter_all (length group) O (map (@rev Z) group) [] 0 with
+  | None => None
+  | Some (lists, reg, c) =>
+    match leave_all (S (length (concat group))) lists reg c [] with
+    | None => None
+    | Some (c', out) => Some (c', sort_z out)
+    end
+  end.
+
+(* merge rounds of radix r over the lists of one fiber, every merge charged by the reference *)
+Fixpoint rounds_ref (fuel : nat) (radix : option Z) (coords : list (list Z)) (cost : Z)
+  : option Z :=
+  if Nat.leb (length coords) 1 then Some cost
+  else match fuel with
+  | O => None
+  | S fuel' =>
+    let n := Z.of_nat (length coords) in
+    let r := match radix with None => n | Some r => Z.min r n end in
+    if Z.ltb r 2 then None
+    else match all_some (map merge_N_ref (chunks (Z.to_nat r) coords)) with
+         | None => None
+         | Some res => rounds_ref fuel' (Some r) (map snd res) (cost + sumZ (map fst res))
+         end
+  end.
+
+Fixpoint swaps_ref_N (depth : nat) (radix : option Z) (t : tree) : option Z :=
+  match t with
+  | Leaf _ => None
+  | Node es =>
+    match depth with
+    | S d' =>
+      match all_some (map (fun ct => swaps_ref_N d' radix (snd ct)) (present 0 es)) with
+      | None => None
+      | Some l => Some (sumZ l)
+      end
+    | O =>
+      match all_some (map (fun ct => coords_of (snd ct)) (present 0 es)) with
+      | None => None
+      | Some cs =>
+        let coords := map (fun l => sort_z (map Z.opp l)) cs in
+        rounds_ref (length coords) radix coords 0
+      end
+    end
+  end.
+
+Definition is_some {A} (o : option A) : bool := match o with Some _ => true | None => false end.
